@@ -26,6 +26,7 @@ func checkC20(c *Ctx, r *Report) {
 	r.rule("C20.R1", "guarantee table from the valid tags of every pointer-typed configuration member", 8)
 	r.rule("C20.R2", "every dereference of a configuration pointer member is guarded or guaranteed by validation", 20)
 	r.rule("C20.R3", "rejection clauses: service names, scheme, ReadConfig error propagation, provenance of the configuration in use", 5)
+	r.rule("C20.R5", "building the router cannot register a path twice for a validated service list: distinct constant prefixes per service, no service mounted twice", 4)
 	r.rule("C20.R4", "a validation failure reported by ValidateStruct is never dropped on its way to ReadConfig", 3)
 
 	fp := c.pkg("pkg/factory")
@@ -253,6 +254,88 @@ func checkC20(c *Ctx, r *Report) {
 		r.proven("C20.R3", "config-provenance", "", fmt.Sprintf("%d assignment(s) of factory.ChfConfig, all from ReadConfig", nstore))
 	}
 	c20ErrorsNotDropped(c, r, "C20.R4")
+	c20DistinctRouteGroups(c, r, "C20.R5")
+}
+
+// c20DistinctRouteGroups (C20.R5): gin panics when a path is registered twice.  Two things
+// keep a validated service list from doing that while the router is built: (a) the services
+// mount their routes under pairwise different constant prefixes; (b) no service is mounted
+// twice - validation refuses a repeated name (an error exit of the loop over the list that
+// depends on a set look-up or on a comparison with another element), or the router skips it.
+func c20DistinctRouteGroups(c *Ctx, r *Report, rule string) {
+	newRouter := c.fn("internal/sbi", "newRouter")
+	prefixes := map[string][]string{}
+	n := 0
+	for _, f := range withAnon(newRouter) {
+		eachInstr(f, func(_ *ssa.BasicBlock, _ int, ins ssa.Instruction) {
+			call, ok := ins.(*ssa.Call)
+			if !ok {
+				return
+			}
+			obj := calleeObj(&call.Call)
+			if obj == nil || obj.Pkg() == nil || obj.Pkg().Path() != ginPath || obj.Name() != "Group" || len(call.Call.Args) < 2 {
+				return
+			}
+			n++
+			if p, ok := constString(call.Call.Args[1]); ok {
+				prefixes[p] = append(prefixes[p], posOf(c, call))
+			} else {
+				r.viol(rule, fmt.Sprintf("%s|group#%d", fnKey(newRouter), n), posOf(c, call), "the prefix of a route group is not a constant: cannot tell whether two services share a path")
+			}
+		})
+	}
+	for _, p := range sortedKeys(prefixes) {
+		at := prefixes[p]
+		r.check(len(at) == 1, rule, fnKey(newRouter)+"|group "+p, at[0], "mounted once", "the route groups created at "+strings.Join(at, " and ")+" have the same prefix "+p+": a configuration that names both services passes validation and gin panics (\"handlers are already registered for path\") while the SBI server is built")
+	}
+	if n == 0 {
+		r.viol(rule, fnKey(newRouter)+"|groups", c.rel(newRouter.Pos()), "no route group is created in newRouter (anchor moved)")
+	}
+	// (b) a repeated name
+	dedup := func(f *ssa.Function) bool {
+		found := false
+		for _, b := range f.Blocks {
+			if len(b.Instrs) == 0 || len(b.Succs) != 2 {
+				continue
+			}
+			iff, ok := b.Instrs[len(b.Instrs)-1].(*ssa.If)
+			if !ok || !inCycle(b) {
+				continue
+			}
+			viaSet := false
+			for d := range depSet(f, iff.Cond) {
+				switch x := d.(type) {
+				case *ssa.Lookup:
+					if _, isMap := x.X.Type().Underlying().(*types.Map); isMap {
+						viaSet = true
+					}
+				case *ssa.Call:
+					if obj := calleeObj(&x.Call); obj != nil && obj.Pkg() != nil && (obj.Pkg().Path() == "slices" || obj.Pkg().Path() == "golang.org/x/exp/slices") && (strings.HasPrefix(obj.Name(), "Contains") || strings.HasPrefix(obj.Name(), "Index")) {
+						viaSet = true
+					}
+				}
+			}
+			if !viaSet {
+				continue
+			}
+			// one edge must leave the iteration early: an error return, or a continue that skips the mounting
+			for _, sc := range b.Succs {
+				for _, ri := range returnsOf(f) {
+					if len(ri.Vals) > 0 && !isNilConst(ri.Vals[len(ri.Vals)-1]) && edgeDominates(b, sc, ri.At) {
+						found = true
+					}
+				}
+				if len(sc.Succs) == 1 && inCycle(sc) && len(sc.Instrs) <= 2 {
+					found = true // `continue`
+				}
+			}
+		}
+		return found
+	}
+	validate := c.fn("pkg/factory", "Configuration.validate")
+	okDedup := dedup(validate) || dedup(newRouter)
+	r.check(okDedup, rule, "service named twice", c.rel(validate.Pos()), "a repeated service name is refused by validation (or skipped by the router)",
+		"a service name that is listed twice passes validation, and newRouter mounts the same routes twice: gin panics (\"handlers are already registered for path\") while the SBI server of the validated configuration is built")
 }
 
 // stringConstsComparedIn: the string constants a function compares (==) some
